@@ -257,3 +257,212 @@ Example overlay_instance_example_bytes :
   commit_b (cont ob) (cont nb) (bwk bw) (bstg bw) [[P 2]] [[P 2]] [(GFile, [P 2])] (bout bw)
   = Ok [([P 1], File [1; 1; 9; 1; 1; 1; 1; 7]%N); ([P 3], File [5; 6]%N)].
 Proof. vm_compute. repeat split. Qed.
+
+(* ------------------------------------------------------------------------------------------ *)
+(** * C02's private filesystem model refines the general filesystem model of C06
+
+    [Bowl/FSmini.v] (this property), [FS/{Tree,Ops}.v] (C06) and the model inside [Arch/Zip.v]
+    (C19) were written independently and are validated against Linux by separate correspondence
+    groups.  [Compose/FSAgree.v] relates them inside Coq: on the states and inputs FSmini is
+    about, and wherever it does not decline ([Unmodelled]), every one of its operations returns
+    what the general model returns - same errno, same resulting tree - so that only the general
+    model need be trusted as a description of Linux for the inputs of the commit proof.
+
+    Vocabulary ([Compose/FSAgree.v]; [Mi] = Bowl.FSmini, [Gt] = FS.Tree, [Go] = FS.Ops):
+    [mini_path enc p], [mini_node ldest n], [mini_tree enc ldest t]: the abstraction (names through
+    any injective [enc], link destinations through any [ldest]; FSmini's implicit target directory
+    is the root [[]] of the general model, relative paths become paths from that root);
+    [mini_sim enc ldest t T]: the general state [T] equals the abstraction of [t] as a finite map
+    ([tree_equiv]; in particular [T := mini_tree enc ldest t]); [mini_wf t]: [t] is a tree (the
+    empty path is not an entry, entries lie below directories); [mini_agree R r g]: [r] and [g]
+    fail with the same errno or succeed with [R]-related values, and [r] is not [Unmodelled].
+    Hypotheses = what FSmini assumes: well-formed state, non-empty relative paths, no link
+    followed (else it declines), and for rename [mini_rename_precedence_ok] (see below). *)
+From Wharf Require Import Compose.FSAgree.
+From Wharf Require Compose.FSAgreeMiniProofs Compose.FSAgreeDiffer.
+
+Theorem fsmini_lstat_refines :
+  forall (enc : Mi.comp -> N) (ldest : N -> list Gt.comp), (forall a b, enc a = enc b -> a = b) ->
+  forall (t : Mi.fs) (T : Gt.tree) (p : Mi.path),
+    mini_sim enc ldest t T -> p <> [] -> Mi.lstat t p <> Mi.Unmodelled ->
+    mini_agree (fun n n' => n' = mini_node ldest n) (Mi.lstat t p) (Go.lstat T (mini_path enc p)).
+Proof. exact FSAgreeMiniProofs.fsmini_lstat_refines_lemma. Qed.
+Print Assumptions fsmini_lstat_refines.
+
+Theorem fsmini_readlink_refines :
+  forall (enc : Mi.comp -> N) (ldest : N -> list Gt.comp), (forall a b, enc a = enc b -> a = b) ->
+  forall (t : Mi.fs) (T : Gt.tree) (p : Mi.path),
+    mini_sim enc ldest t T -> p <> [] -> Mi.readlink t p <> Mi.Unmodelled ->
+    mini_agree (fun d d' => d' = ldest d) (Mi.readlink t p) (Go.readlink T (mini_path enc p)).
+Proof. exact FSAgreeMiniProofs.fsmini_readlink_refines_lemma. Qed.
+Print Assumptions fsmini_readlink_refines.
+
+(** open(O_RDONLY) + read; [open_existing] (open(O_WRONLY) of an existing file, its content) *)
+Theorem fsmini_read_file_refines :
+  forall (enc : Mi.comp -> N) (ldest : N -> list Gt.comp), (forall a b, enc a = enc b -> a = b) ->
+  forall (t : Mi.fs) (T : Gt.tree) (p : Mi.path),
+    mini_sim enc ldest t T -> p <> [] -> Mi.read_file t p <> Mi.Unmodelled ->
+    mini_agree (fun c c' => c' = c) (Mi.read_file t p) (Go.read_file T (mini_path enc p)).
+Proof. exact FSAgreeMiniProofs.fsmini_read_file_refines_lemma. Qed.
+Print Assumptions fsmini_read_file_refines.
+
+Theorem fsmini_open_existing_refines :
+  forall (enc : Mi.comp -> N) (ldest : N -> list Gt.comp), (forall a b, enc a = enc b -> a = b) ->
+  forall (t : Mi.fs) (T : Gt.tree) (p : Mi.path),
+    mini_sim enc ldest t T -> p <> [] -> Mi.open_existing t p <> Mi.Unmodelled ->
+    mini_agree (fun c c' => c' = c) (Mi.open_existing t p) (gen_open_existing T (mini_path enc p)).
+Proof. exact FSAgreeMiniProofs.fsmini_open_existing_refines_lemma. Qed.
+Print Assumptions fsmini_open_existing_refines.
+
+(** os.Remove (unlink, else rmdir of an empty directory; ENOTEMPTY otherwise) *)
+Theorem fsmini_remove_refines :
+  forall (enc : Mi.comp -> N) (ldest : N -> list Gt.comp), (forall a b, enc a = enc b -> a = b) ->
+  forall (t : Mi.fs) (T : Gt.tree) (p : Mi.path),
+    mini_sim enc ldest t T -> p <> [] -> Mi.remove t p <> Mi.Unmodelled ->
+    mini_agree (mini_sim enc ldest) (Mi.remove t p) (Go.remove T (mini_path enc p)).
+Proof. exact FSAgreeMiniProofs.fsmini_remove_refines_lemma. Qed.
+Print Assumptions fsmini_remove_refines.
+
+(** os.RemoveAll; well-formedness matters: a missing path has nothing below it *)
+Theorem fsmini_remove_all_refines :
+  forall (enc : Mi.comp -> N) (ldest : N -> list Gt.comp), (forall a b, enc a = enc b -> a = b) ->
+  forall (t : Mi.fs) (T : Gt.tree) (p : Mi.path),
+    mini_wf t -> mini_sim enc ldest t T -> p <> [] -> Mi.remove_all t p <> Mi.Unmodelled ->
+    mini_agree (mini_sim enc ldest) (Mi.remove_all t p) (Go.remove_all T (mini_path enc p)).
+Proof. exact FSAgreeMiniProofs.fsmini_remove_all_refines_lemma. Qed.
+Print Assumptions fsmini_remove_all_refines.
+
+(** os.MkdirAll (also of the target directory itself: the empty path is allowed here); the
+    general model follows Go's implementation (Stat, recursion on the parent, Mkdir, Lstat),
+    FSmini walks down from the top - same errno (ENOTDIR over or below a file), same tree *)
+Theorem fsmini_mkdir_all_refines :
+  forall (enc : Mi.comp -> N) (ldest : N -> list Gt.comp), (forall a b, enc a = enc b -> a = b) ->
+  forall (t : Mi.fs) (T : Gt.tree) (p : Mi.path),
+    mini_wf t -> mini_sim enc ldest t T -> Mi.mkdir_all t p <> Mi.Unmodelled ->
+    mini_agree (fun t' T' => mini_sim enc ldest t' T' /\ mini_wf t') (Mi.mkdir_all t p) (Go.mkdir_all T (mini_path enc p)).
+Proof. exact FSAgreeMiniProofs.fsmini_mkdir_all_refines_lemma. Qed.
+Print Assumptions fsmini_mkdir_all_refines.
+
+Theorem fsmini_symlink_refines :
+  forall (enc : Mi.comp -> N) (ldest : N -> list Gt.comp), (forall a b, enc a = enc b -> a = b) ->
+  forall (t : Mi.fs) (T : Gt.tree) (d : N) (p : Mi.path),
+    mini_sim enc ldest t T -> p <> [] -> Mi.symlink t d p <> Mi.Unmodelled ->
+    mini_agree (mini_sim enc ldest) (Mi.symlink t d p) (Go.symlink T (ldest d) (mini_path enc p)).
+Proof. exact FSAgreeMiniProofs.fsmini_symlink_refines_lemma. Qed.
+Print Assumptions fsmini_symlink_refines.
+
+(** [create_trunc] = open(O_CREATE|O_WRONLY|O_TRUNC) followed by one write through the
+    descriptor ([gen_create] = [Go.open_trunc] then [Go.write_fd]) *)
+Theorem fsmini_write_refines :
+  forall (enc : Mi.comp -> N) (ldest : N -> list Gt.comp), (forall a b, enc a = enc b -> a = b) ->
+  forall (t : Mi.fs) (T : Gt.tree) (p : Mi.path) (c : list N),
+    mini_sim enc ldest t T -> p <> [] -> Mi.create_trunc t p c <> Mi.Unmodelled ->
+    mini_agree (mini_sim enc ldest) (Mi.create_trunc t p c) (gen_create T (mini_path enc p) c).
+Proof. exact FSAgreeMiniProofs.fsmini_write_refines_lemma. Qed.
+Print Assumptions fsmini_write_refines.
+
+(** Go's os.Rename against [Go.rename] (Lstat of the new name, then rename(2)): same errno
+    (EEXIST onto any existing directory, also an ancestor; EINVAL into itself; ENOTDIR directory
+    onto file; ENOENT / ENOTDIR from either path) and same tree (a directory moves with its
+    subtree; a file replaces a file or a link), EXCEPT on the inputs excluded by
+    [mini_rename_precedence_ok]: old name missing in an existing directory while the new name
+    lies below a regular file - FSmini says ENOENT, the general model and Linux ENOTDIR
+    ([fsmini_rename_errno_differs] below). *)
+Theorem fsmini_rename_refines :
+  forall (enc : Mi.comp -> N) (ldest : N -> list Gt.comp), (forall a b, enc a = enc b -> a = b) ->
+  forall (t : Mi.fs) (T : Gt.tree) (src dst : Mi.path),
+    mini_wf t -> mini_sim enc ldest t T -> src <> [] -> dst <> [] ->
+    mini_rename_precedence_ok t src dst = true -> Mi.rename t src dst <> Mi.Unmodelled ->
+    mini_agree (fun t' T' => mini_sim enc ldest t' T' /\ mini_wf t')
+               (Mi.rename t src dst) (Go.rename T (mini_path enc src) (mini_path enc dst)).
+Proof. exact FSAgreeMiniProofs.fsmini_rename_refines_lemma. Qed.
+Print Assumptions fsmini_rename_refines.
+
+(** Summary.  [mini_run ldest t ops]: the operations [ops] (any of the ten above) one after the
+    other in FSmini, [None] as soon as one is declined; [gen_run enc ldest T ops]: the
+    corresponding calls in the general model; an outcome is (errno or success, returned
+    value); [mini_ops_ok t ops]: every path is non-empty (MkdirAll excepted) and no rename is of
+    the excluded class, in the state in which it runs.  Any sequence that FSmini does not
+    decline gives, from any general state standing for [t] - in particular from
+    [mini_tree enc ldest t] ([fsmini_refines_fs_image]) - the same outcome for every operation
+    and the same final tree, which is again well-formed. *)
+Theorem fsmini_refines_fs :
+  forall (enc : Mi.comp -> N) (ldest : N -> list Gt.comp), (forall a b, enc a = enc b -> a = b) ->
+  forall (ops : list mini_op) (t : Mi.fs) (T : Gt.tree) (outs : list call_outcome) (t' : Mi.fs),
+    mini_wf t -> mini_sim enc ldest t T -> mini_ops_ok t ops = true ->
+    mini_run ldest t ops = Some (outs, t') ->
+    exists T', gen_run enc ldest T ops = (outs, T') /\ mini_sim enc ldest t' T' /\ mini_wf t'.
+Proof. exact FSAgreeMiniProofs.fsmini_refines_fs_lemma. Qed.
+Print Assumptions fsmini_refines_fs.
+
+Theorem fsmini_refines_fs_image :
+  forall (enc : Mi.comp -> N) (ldest : N -> list Gt.comp), (forall a b, enc a = enc b -> a = b) ->
+  forall (t : Mi.fs) (ops : list mini_op) (outs : list call_outcome) (t' : Mi.fs),
+    mini_wf t -> mini_ops_ok t ops = true -> mini_run ldest t ops = Some (outs, t') ->
+    exists T', gen_run enc ldest (mini_tree enc ldest t) ops = (outs, T') /\
+               tree_equiv (mini_tree enc ldest t') T' /\ mini_wf t'.
+Proof. exact FSAgreeMiniProofs.fsmini_refines_fs_image. Qed.
+Print Assumptions fsmini_refines_fs_image.
+
+(** the hypotheses are satisfiable: an injective numbering of FSmini's structured names, a
+    decidable sufficient condition for [mini_wf], and an executed sixteen-operation sequence
+    with a temporary name (ok and failing calls of every errno class reached) *)
+Theorem fsmini_names_injective : forall a b, enc_std a = enc_std b -> a = b.
+Proof. exact FSAgreeMiniProofs.enc_std_inj. Qed.
+Print Assumptions fsmini_names_injective.
+
+Theorem fsmini_wf_decidable : forall t, mini_wfb t = true -> mini_wf t.
+Proof. exact FSAgreeMiniProofs.mini_wfb_sound. Qed.
+Print Assumptions fsmini_wf_decidable.
+
+Example fsmini_refines_fs_inhabited :
+  mini_wfb FSAgreeDiffer.mini_demo_tree = true /\
+  mini_ops_ok FSAgreeDiffer.mini_demo_tree FSAgreeDiffer.mini_demo_ops = true /\
+  exists outs t',
+    mini_run ldest_std FSAgreeDiffer.mini_demo_tree FSAgreeDiffer.mini_demo_ops = Some (outs, t') /\
+    fst (gen_run enc_std ldest_std (mini_tree enc_std ldest_std FSAgreeDiffer.mini_demo_tree) FSAgreeDiffer.mini_demo_ops) = outs /\
+    Gt.tree_eqb (mini_tree enc_std ldest_std t')
+                (snd (gen_run enc_std ldest_std (mini_tree enc_std ldest_std FSAgreeDiffer.mini_demo_tree) FSAgreeDiffer.mini_demo_ops)) = true /\
+    map fst outs = [None; None; Some Go.ENOENT; None; None; None; None; None; None; Some Go.ENOTEMPTY; None;
+                    Some Go.EINVAL; None; None; None; Some Go.ENOENT].
+Proof. exact FSAgreeDiffer.fsmini_refines_fs_instance. Qed.
+
+(** Where the two models DIFFER on an input both accept (well-formed state, no link): the errno
+    of os.Rename when the old name is missing and the new name lies below a regular file.
+    Linux (observed): ENOTDIR - rename(2) resolves both parent directories before it looks the
+    old name up.  The general model is right, FSmini reports the wrong errno (both fail, the
+    tree is untouched; Commit only distinguishes ok / error for Rename, and the [fsops] group
+    compares only that for rename, which is why the correspondence never flagged it). *)
+Theorem fsmini_rename_errno_differs :
+  let t := [([Mi.P 2], Mi.File [7%N])] in
+  let src := [Mi.P 1] in let dst := [Mi.P 2; Mi.P 1] in
+  mini_wfb t = true /\
+  Mi.rename t src dst = Mi.Err Mi.ENOENT /\
+  Go.rename (mini_tree enc_std ldest_std t) (mini_path enc_std src) (mini_path enc_std dst) = Go.Err Go.ENOTDIR /\
+  mini_rename_precedence_ok t src dst = false.
+Proof. exact FSAgreeDiffer.fsmini_rename_errno_differ. Qed.
+Print Assumptions fsmini_rename_errno_differs.
+
+(** ... and that is all that differs there: on every input excluded by [mini_rename_precedence_ok]
+    FSmini fails with ENOENT, the general model fails with the errno of the new name's path
+    (which is not ENOENT), and neither changes the tree. *)
+Theorem fsmini_rename_excluded_both_fail :
+  forall (enc : Mi.comp -> N) (ldest : N -> list Gt.comp), (forall a b, enc a = enc b -> a = b) ->
+  forall (t : Mi.fs) (T : Gt.tree) (src dst : Mi.path),
+    mini_sim enc ldest t T -> src <> [] -> mini_rename_precedence_ok t src dst = false ->
+    Mi.rename t src dst = Mi.Err Mi.ENOENT /\
+    exists e, Mi.parent_ok t dst = Mi.Err e /\ e <> Mi.ENOENT /\
+              Go.rename T (mini_path enc src) (mini_path enc dst) = Go.Err (mini_errno e).
+Proof. exact FSAgreeMiniProofs.fsmini_rename_excluded_lemma. Qed.
+Print Assumptions fsmini_rename_excluded_both_fail.
+
+(** The empty relative path (the target directory itself) is not an input of FSmini: it answers
+    as for a missing entry where Linux sees a directory (Lstat ok, Symlink EEXIST, open EISDIR). *)
+Theorem fsmini_empty_path_differs :
+  Mi.lstat [] [] = Mi.Err Mi.ENOENT /\ Go.lstat [] [] = Go.Ok Gt.Dir /\
+  Mi.symlink [] 5%N [] = Mi.Ok [([], Mi.Link 5%N)] /\ Go.symlink [] [Gt.Nm 5%N] [] = Go.Err Go.EEXIST /\
+  Mi.create_trunc [] [] [9%N] = Mi.Ok [([], Mi.File [9%N])] /\ gen_create [] [] [9%N] = Go.Err Go.EISDIR /\
+  Mi.remove [] [] = Mi.Err Mi.ENOENT /\ Go.remove [] [] = Go.Err Go.EBUSY /\
+  Mi.remove_all [] [] = Mi.Ok [] /\ Go.remove_all [] [] = Go.Err Go.EINVAL /\
+  Mi.mkdir_all [] [] = Mi.Ok [] /\ Go.mkdir_all [] [] = Go.Ok [].
+Proof. exact FSAgreeDiffer.fsmini_root_differ. Qed.
